@@ -1,4 +1,5 @@
 """C04/C14 helpers, part 3: seeded generators of condition cases (plain JSON)."""
+import copy
 import numpy as np
 
 from . import c04_dsl as D
@@ -360,16 +361,20 @@ def gen_pideeponet_case(rng, preset=None):
     c = {"kind": "pideeponet", "seed": int(rng.integers(0, 2 ** 31)), "calls": int(rng.integers(2, 5))}
     vars_ = preset["vars"] if "vars" in preset else gen_vars(rng, 1, 2, maxdim=3)
     c["vars"] = vars_
-    c["model"] = gen_model(rng, vars_, deeponet=True)
+    arch = preset.get("don_arch")          # C14: a second condition on the SAME DeepONet with its own function set
+    c["model"] = copy.deepcopy(arch["model"]) if arch else gen_model(rng, vars_, deeponet=True)
     outs = c["model"]["outs"]
     nd = sum(o["dim"] for o in outs)
     names = [v["name"] for v in vars_]
-    fv = [names[int(rng.integers(0, len(names)))]]
-    kvar = {"name": "kf", "dim": int(rng.choice([1, 2])), "dom": "rect", "lo": 0.5, "hi": 1.5}
-    fout = {"name": "a", "dim": int(rng.choice([1, 2]))}
+    fv = list(arch["fvars"]) if arch else [names[int(rng.integers(0, len(names)))]]
+    kvar = dict(arch["kvar"]) if arch else {"name": "kf", "dim": int(rng.choice([1, 2])), "dom": "rect", "lo": 0.5, "hi": 1.5}
+    fout = dict(arch["fout"]) if arch else {"name": "a", "dim": int(rng.choice([1, 2]))}
     fs = D.gen_data_fn(rng, "a", fout["dim"], [kvar] + [v for v in vars_ if v["name"] in fv])
     c["don"] = {"fvars": fv, "kvar": kvar, "fout": fout, "fs": fs, "nf": int(rng.integers(2, 6)),
-                "disc_n": int(rng.integers(3, 7)), "neurons": nd * int(rng.integers(2, 5))}
+                "disc_n": arch["disc_n"] if arch else int(rng.integers(3, 7)),
+                "neurons": arch["neurons"] if arch else nd * int(rng.integers(2, 5))}
+    if arch:
+        c["shares_net"] = True
     c["sampler"] = gen_sampler(rng, vars_, names, cap=30)
     c["data"] = preset["data"] if "data" in preset else gen_data(rng, vars_, nmax=2)
     if preset and c["data"]:
@@ -478,12 +483,15 @@ def _all_grid(spec, dims):
     return False
 
 
-def gen_group_case(rng):
+def gen_group_case(rng, force_kinds=None):
     n = int(rng.choice([2, 2, 3, 3, 4]))
     names = [k for k, _ in GROUP_KINDS]
     p = np.array([w for _, w in GROUP_KINDS])
     p = p / p.sum()
     kinds = [names[int(rng.choice(len(names), p=p))] for _ in range(n)]
+    if force_kinds:
+        kinds = (list(force_kinds) + kinds)[:max(n, len(force_kinds))]
+        kinds = [kinds[int(j)] for j in rng.permutation(len(kinds))]
     force = {}
     if "periodic" in kinds:
         force["t"] = 1
@@ -511,6 +519,9 @@ def gen_group_case(rng):
         if share["model"] and k != "pideeponet":
             preset["model"] = model
         if k == "pideeponet":
+            first = next((q for q in conds if q["kind"] == "pideeponet"), None)
+            if first is not None:
+                preset["don_arch"] = dict(first["don"], model=first["model"])
             c = gen_pideeponet_case(rng, preset)
         else:
             c = gen_sampler_case(rng, k, preset)
